@@ -261,10 +261,11 @@ class Ctx:
     def coq_run(self, name, text, timeout=900):
         """Compile a scratch .v file against the development; return stdout+stderr, rc."""
         d = os.path.join(self.build, "tmp")
+        name = "%s_p%d" % (name, os.getpid())   # two runs of one property must not collide
         f = os.path.join(d, name + ".v")
         open(f, "w").write(text)
         p = self.sh(["coqc", "-w", "-notation-overridden,-deprecated-hint-without-locality", "-Q", self.coqdir, "SV", f], cwd=d, timeout=timeout)
-        for ext in (".vo", ".vok", ".vos", ".glob"):
+        for ext in (".vo", ".vok", ".vos", ".glob", ".v"):
             try:
                 os.remove(os.path.join(d, name + ext))
             except OSError:
@@ -298,29 +299,60 @@ class Ctx:
         if bad:
             self.broken("forbidden-vernacular", "; ".join(bad[:10]))
             return False
-        ok, log = self.coq_make([sub + "/Properties.vo"], timeout=timeout)
-        if not ok:
-            m = re.search(r'File "([^"]+)", line (\d+)', log)
-            where = "%s:%s" % (m.group(1), m.group(2)) if m else "?"
-            self.broken("coq-build:" + sub + "/Properties.vo", "make failed at %s\n%s" % (where, log[-3000:]))
-            self.discharged = 0
-            return False
-        audit = "From SV Require Import %s.Properties.\n" % sub
-        for t in thms:
-            audit += 'Goal True. idtac "@@THM %s". exact I. Qed.\nPrint Assumptions %s.\n' % (t, t)
-        out, rc = self.coq_run("Audit_" + sub, audit)
-        if rc != 0:
-            self.broken("audit:" + sub, out[-3000:])
-            return False
-        parts = out.split("@@THM ")[1:]
+        # The Coq development lives in /verif and does not depend on the repository
+        # under test, so the result of building + auditing an unchanged closure is
+        # reused (keyed by the content of every file in the closure).
+        closure = sorted(self.coq_closure(sub + "/Properties.v"))
+        hsh = hashlib.sha256()
+        for rel in closure:
+            hsh.update(rel.encode() + b"\0")
+            hsh.update(open(os.path.join(self.coqdir, rel), "rb").read())
+        digest = hsh.hexdigest()
+        cdir = os.path.join(VERIF, "build", "auditcache")
+        os.makedirs(cdir, exist_ok=True)
+        cfile = os.path.join(cdir, sub + ".json")
+        cached = None
+        try:
+            c = json.load(open(cfile))
+            if c.get("digest") == digest and c.get("theorems") == thms and os.path.exists(os.path.join(self.coqdir, sub, "Properties.vo")):
+                cached = c
+        except (OSError, ValueError):
+            pass
+        if cached is None:
+            ok, log = self.coq_make([sub + "/Properties.vo"], timeout=timeout)
+            if not ok:
+                m = re.search(r'File "([^"]+)", line (\d+)', log)
+                where = "%s:%s" % (m.group(1), m.group(2)) if m else "?"
+                self.broken("coq-build:" + sub + "/Properties.vo", "make failed at %s\n%s" % (where, log[-3000:]))
+                self.discharged = 0
+                return False
+            audit = "From SV Require Import %s.Properties.\n" % sub
+            for t in thms:
+                audit += 'Goal True. idtac "@@THM %s". exact I. Qed.\nPrint Assumptions %s.\n' % (t, t)
+            out, rc = self.coq_run("Audit_" + sub, audit)
+            if rc != 0:
+                self.broken("audit:" + sub, out[-3000:])
+                return False
+            axioms = {}
+            for part in out.split("@@THM ")[1:]:
+                name, _, rest = part.partition("\n")
+                name = name.strip()
+                if "Closed under the global context" in rest:
+                    axs = []
+                else:
+                    axs = re.findall(r"^([A-Za-z0-9_.']+)\s*:", rest, re.M)
+                axioms[name] = axs
+            json.dump({"digest": digest, "theorems": thms, "axioms": axioms, "files": closure}, open(cfile + ".tmp%d" % os.getpid(), "w"))
+            os.replace(cfile + ".tmp%d" % os.getpid(), cfile)
+        else:
+            axioms = cached["axioms"]
+            self.notes.append("Coq closure unchanged since it was last built and audited (sha256 %s...): audit result reused" % digest[:12])
         n = 0
-        for part in parts:
-            name, _, rest = part.partition("\n")
-            name = name.strip()
-            if "Closed under the global context" in rest:
-                axs = []
-            else:
-                axs = re.findall(r"^([A-Za-z0-9_.']+)\s*:", rest, re.M)
+        for name in thms:
+            if name not in axioms:
+                self.broken("audit:" + name, "theorem not found in the compiled development")
+                continue
+            axs = axioms[name]
             self.axioms[name] = axs
             notallowed = [a for a in axs if a not in ALLOWED_AXIOMS and a.split(".")[-1] not in ALLOWED_AXIOMS]
             if notallowed:
